@@ -1381,7 +1381,7 @@ def main():
         out = ['-- GENERATED by tools/mir2lean.py --js from rustc MIR (feature js: expansions of the derive macros); do not edit.',
                'import LymuiVerif.Core.Js', 'import LymuiVerif.Gen.Types', 'set_option linter.unusedVariables false', 'namespace Gen', 'open Flt', '']
         names = list(emitted)
-        deps = {n: [m for m in emitted[n][1] if m in emitted and m != n] for n in names}
+        deps = {n: sorted(m for m in emitted[n][1] if m in emitted and m != n) for n in names}
         done, order = set(), []
         def visit(n, stack=()):
             if n in done or n in stack: return
@@ -1419,7 +1419,7 @@ def main():
     for nm, d in const_defs: out.append(d)
     out.append('')
     names = list(emitted)
-    deps = {n: [m for m in emitted[n][1] if m in emitted and m != n] for n in names}
+    deps = {n: sorted(m for m in emitted[n][1] if m in emitted and m != n) for n in names}
     done, order = set(), []
     def visit(n, stack=()):
         if n in done or n in stack: return
